@@ -78,10 +78,35 @@ pub use types::{
 	WalletOutputBatch,
 };
 
+/// Verification hooks (only compiled with `--cfg grin_wallet_verif`):
+/// re-exports the crate-private `internal` modules and holds a callback
+/// invoked by `wallet_lock!` right before the wallet mutex is taken.
+#[cfg(grin_wallet_verif)]
+pub mod verif_hooks {
+	pub use crate::internal::{keys, scan, selection, tx, updater};
+	use std::sync::{Arc, RwLock};
+	lazy_static! {
+		static ref BEFORE_LOCK: RwLock<Option<Arc<dyn Fn() + Send + Sync>>> = RwLock::new(None);
+	}
+	/// Install (or clear) the callback run before every `wallet_lock!` acquisition
+	pub fn set_before_lock(f: Option<Arc<dyn Fn() + Send + Sync>>) {
+		*BEFORE_LOCK.write().unwrap() = f;
+	}
+	/// Run the installed callback, if any
+	pub fn before_lock() {
+		let f = BEFORE_LOCK.read().unwrap().clone();
+		if let Some(f) = f {
+			f()
+		}
+	}
+}
+
 /// Helper for taking a lock on the wallet instance
 #[macro_export]
 macro_rules! wallet_lock {
 	($wallet_inst: expr, $wallet: ident) => {
+		#[cfg(grin_wallet_verif)]
+		$crate::verif_hooks::before_lock();
 		let inst = $wallet_inst.clone();
 		let mut w_lock = inst.lock();
 		let w_provider = w_lock.lc_provider()?;
